@@ -76,9 +76,9 @@ class Injector:
         return f
 
 
-def run_with_faults(prog, inputs, mode, faults, exc='exception', async_sinks=False):
+def run_with_faults(prog, inputs, mode, faults, exc='exception', async_sinks=False, caller_loop=False):
     inj = Injector(faults, exc, async_sinks and mode == 'async')
-    res = syncrun.run_case(prog, inputs, mode=mode, with_refs=True, fn_wrap=inj.wrap)
+    res = syncrun.run_case(prog, inputs, mode=mode, with_refs=True, fn_wrap=inj.wrap, caller_loop=caller_loop)
     res.inj = inj
     return res
 
@@ -289,14 +289,15 @@ def check_case(case, counters, sets):
     if case.get('timed'):
         return check_timed(case, counters, sets)
     res = run_with_faults(case['prog'], case['inputs'], case['mode'], {k: set(v) for k, v in case['faults'].items()},
-                          case.get('exc', 'exception'), case.get('async_sinks', False))
+                          case.get('exc', 'exception'), case.get('async_sinks', False), case.get('caller_loop', False))
     if res.hung:
         return None, [], 0
     res.node_loop_bound = any(n.loop is not None for n in res.nodes.values()) and case['mode'] == 'plain'
     viols, injected = check_run(case, res, counters)
     for s in case['prog']['nodes']:
         sets.setdefault('node_types_seen', set()).add(s['op'])
-    sets.setdefault('modes', set()).add(case['mode'] + ('+loop-thread' if res.node_loop_bound else '') + ('+async-sinks' if case.get('async_sinks') else ''))
+    sets.setdefault('modes', set()).add(case['mode'] + ('+loop-thread' if res.node_loop_bound else '') + ('+async-sinks' if case.get('async_sinks') else '')
+                                        + ('+caller-runs-its-own-loop' if res.node_loop_bound and case.get('caller_loop') else ''))
     sets.setdefault('fault_exception_classes', set()).add(case.get('exc', 'exception'))
     return res, viols, injected
 
@@ -334,7 +335,7 @@ def run_shard(seed, tier, shard, nshards):
         classes = list(F.FAULT_CLASSES)
         for n_fs, fs in enumerate(fault_sets):
             case = {'prog': prog, 'inputs': inputs, 'mode': mode, 'faults': fs, 'async_sinks': async_sinks,
-                    'exc': classes[(n_fs + k) % len(classes)]}
+                    'exc': classes[(n_fs + k) % len(classes)], 'caller_loop': mode == 'plain' and (n_fs + k) % 3 == 0}
             res, viols, injected = check_case(case, C, out['sets'])
             out['evaluations'] += 1
             if res is None:
